@@ -2,6 +2,7 @@ INIT Init
 NEXT Next
 CONSTANT MaxTok = 2
 CONSTANT Rich = FALSE
+CONSTANT HalfOn = TRUE
 ACTION_CONSTRAINT Emit
 INVARIANT TreeAgreement CrossShape PrefixNeverOK PrefixEOI
 CHECK_DEADLOCK FALSE
